@@ -740,6 +740,38 @@ class RedlineEngine:
 
         if op == EditOperationType.INSERTION:
             anchor_run = active_mapper.get_insertion_anchor(start_idx)
+
+            # If the insertion point opens a paragraph, the preceding run (if any) belongs to the previous
+            # paragraph: anchor inline text on the first run of the paragraph it was addressed to.
+            insert_before = start_idx == 0
+            inline_text = edit.new_text or ""
+            is_inline = not re.search(r"[\r\n]", inline_text) and self._parse_markdown_style(inline_text)[1] is None
+            here = next((s for s in active_mapper.spans if s.start <= start_idx < s.end), None)
+            if not insert_before and is_inline and here is not None and here.paragraph is not None:
+                anchor_p = None
+                if anchor_run is not None:
+                    anchor_parent = anchor_run._element.getparent()
+                    anchor_p = (
+                        anchor_parent
+                        if anchor_parent is None or anchor_parent.tag == qn("w:p")
+                        else anchor_parent.getparent()
+                    )
+                if anchor_p is not here.paragraph._p:
+                    following = next(
+                        (
+                            s
+                            for s in active_mapper.spans
+                            if s.run is not None
+                            and s.start >= start_idx
+                            and s.paragraph is not None
+                            and s.paragraph._p is here.paragraph._p
+                        ),
+                        None,
+                    )
+                    if following is not None:
+                        anchor_run = following.run
+                        insert_before = True
+
             if not anchor_run:
                 return False
 
@@ -748,7 +780,7 @@ class RedlineEngine:
 
             final_new_text = edit.new_text or ""
 
-            if start_idx == 0:
+            if insert_before:
                 ins_elem = self.track_insert(final_new_text, anchor_run=anchor_run, comment=edit.comment)
                 if ins_elem is not None:
                     parent.insert(index, ins_elem)
